@@ -172,6 +172,10 @@ def one_setup(chk, drv, it, stats):
         prof = {'deltaRTe': rng.choice([0.5, 0.9, 2.3]), 'kTe': rng.choice([0.1, 0.4]), 'CTe': rng.choice([1.0, 1.5]),
                 'deltaRN0': rng.choice([2.9, 1.7]), 'kN0': rng.choice([0.055, 0.1])}
     S = H.make_setup([nr, max(nth, 2), max(nz, 2), nv], [d, 1, 1, 3], uniform_flag, rrange=rrange, **prof)
+    if it % 4 == 1:
+        # the centre of the radial profiles is a constant of its own (a parameter file may give it): not the middle of the domain
+        S['constants'].rp = rrange[0] + [0.3, 0.62][it // 4 % 2] * (rrange[1] - rrange[0])
+        prof = dict(prof, rp=S['constants'].rp)
     if prof:
         S['constants'].getCN0()
     S['eta'] = [S['eta'][0], np.linspace(0, 2 * np.pi, nth, endpoint=False), np.linspace(0, 1, nz, endpoint=False), S['eta'][3]]
@@ -181,6 +185,14 @@ def one_setup(chk, drv, it, stats):
     kind = rng.choice(['random', 'random', 'single_mode', 'equilibrium'])
     if it < 6:
         kind = 'random'
+    if it % 4 == 1:
+        from_f = True              # the density comes from a distribution function: the equilibrium table is built with the off-centre rp
+        if it % 8 == 1:
+            kind = 'equilibrium'   # ... and the equilibrium of THESE constants is a fixed point
+    if it % 5 == 4:
+        # a line source on the first theta point, the same on every z plane: ALL poloidal modes of the density are equal (and the
+        # slices of consecutive modes on one process hold exactly the same numbers)
+        kind, from_f = 'line_source', False
     from props import c16
     feq_tab = c16.feq_oracle(S)
     F = rho0 = None
@@ -199,6 +211,9 @@ def one_setup(chk, drv, it, stats):
         elif kind == 'single_mode':
             mm = rng.randint(0, nth)
             rho0 = np.cos(mm * th + 0.3)[None, :, None] * nprng.uniform(0.5, 1, size=(nr, 1, nz))
+        elif kind == 'line_source':
+            rho0 = np.zeros((nr, nth, nz))
+            rho0[:, 0, :] = nprng.uniform(0.5, 1, size=(nr, 1))
         else:
             rho0 = nprng.uniform(-1, 1, size=(nr, nth, nz))
     desc0 = {'npts': [nr, nth, nz, nv], 'rdegree': d, 'uniform_flag': uniform_flag, 'from_f': from_f, 'kind': kind,
